@@ -170,6 +170,20 @@ CLAIMED["C08"] = dict(
         "generated. Two genuine defects repaired in /repo (fix: 43b9b80 and the positional-only default commit).",
    technique="Coq proofs over the model of parse_params and of Python's binding (pure mirror via the verdict framework) + call "
              "correspondence + CPython-binding oracle on the implementation", design="§8 C08")
+CLAIMED["C14"] = dict(
+   text="Machine-checked proof (Coq), partial: the integer-field arithmetic of the duration, UTC-offset and time-of-day encoders "
+        "(encode.py) and decoders (transform.py) round-trips for every value of the domain: every timedelta including negative and "
+        "microsecond ones (C14_duration_roundtrip; the written fields denote the absolute value and are canonical), every UTC offset of "
+        "less than a day, positive or negative (C14_offset_roundtrip), and exactly the times of day with whole milliseconds "
+        "(C14_time_ms_roundtrip / C14_time_finer_than_ms_is_lost).",
+   note="Trusted: Coq kernel; Model/Temporal.v as a description of duration_iso_string / to_timedelta, isoformat offsets / %z, "
+        "from_time (tied by the temporal suite at field level: the implementation's text is read with an independent regular "
+        "expression). Partial: the text layouts, Decimal / float tokens (15 significant digits through float), UUID, Enum, bytes and "
+        "the round trip of whole instances (containers, nested classes, standard JSON) are decided by the round-trip suite on the "
+        "implementation, not proved. One genuine defect repaired in /repo (negative UTC offsets did not parse back: d82c1fe); one open "
+        "known finding (DataClass instances are not encodable at all).",
+   technique="Coq proofs (lia with Euclidean division) over the field arithmetic + field-level correspondence + round-trip oracle "
+             "on the implementation", design="§8 C14")
 NOT_YET = {}
 for i in range(1, 21):
     pid = "C%02d" % i
